@@ -486,6 +486,16 @@ impl C08 {
             rep.count("gen.cyclic", 1);
         }
         let mut files = wl.files();
+        // UTF-8 density knob: a third of the scenarios carry multi-byte comments on every
+        // line of their rules and YAML files (meaning unchanged)
+        if r.chance(1, 3) {
+            rep.count("gen.utf8_dense", 1);
+            for f in files.iter_mut() {
+                if f.rel.ends_with(".guard") || f.rel.ends_with(".yaml") {
+                    f.bytes = utf8_densify(&mut r, &f.bytes);
+                }
+            }
+        }
         // storage fault sequence
         let nops = match r.below(8) {
             0 | 1 => 0,
